@@ -99,6 +99,12 @@ class World:
         self.mid_now = {}
         for k, kind, arg in (entry[3] if len(entry) > 3 else ()):
             self.mid_now.setdefault(int(k), []).append((kind, arg))
+        # a process the manager terminated exits on its own (after its drain time), whether or not anybody waits
+        # for it; nobody ordered that exit from outside, so it is no "unexpected" death of the history
+        for p in self.procs:
+            if p.state == "terminating" and self.tick - getattr(p, "term_tick", self.tick) >= max(1, int(self.slow_exit)):
+                p.state = "dead"
+                self.rec("exited_after_terminate", p.name, p.pid)
         self.in_sleep = True
         try:
             self._inject(die, sig, fchange)
@@ -148,6 +154,7 @@ class FakeProcess:
         self.world.rec("terminate", self.name, self.pid)
         if self.state == "alive":
             self.state = "terminating"
+            self.term_tick = self.world.tick
 
     def join(self, timeout: Any = None) -> None:
         w = self.world
@@ -254,7 +261,8 @@ class _CurProc:
     name = "MainProcess"
 
 
-def run_history(workers: int, max_fails: int, history: List[Any], lag: bool = False, slow_exit: float = 0.0) -> Dict[str, Any]:
+def run_history(workers: int, max_fails: int, history: List[Any], lag: bool = False, slow_exit: float = 0.0,
+                reload: bool = False) -> Dict[str, Any]:
     """Run the real ProcessManager.__init__/start() against one history in the fake world."""
     world = World(history, lag)
     world.slow_exit = slow_exit
@@ -271,7 +279,8 @@ def run_history(workers: int, max_fails: int, history: List[Any], lag: bool = Fa
     pm.current_process = lambda: _CurProc()  # type: ignore
     out: Dict[str, Any] = {"returned": False, "ret": None, "crash": None, "blocked": False}
     try:
-        args = WorkerArgs(broker="b:b", modules=[], workers=workers, max_fails=max_fails)
+        # reload=True is what `taskiq worker --reload` sets (development mode): supervision itself must not differ
+        args = WorkerArgs(broker="b:b", modules=[], workers=workers, max_fails=max_fails, reload=reload)
         mgr = pm.ProcessManager(args, worker_function=lambda args: None)
         try:
             out["ret"] = mgr.start()
@@ -292,6 +301,7 @@ def run_history(workers: int, max_fails: int, history: List[Any], lag: bool = Fa
         for k, v in saved.items():
             setattr(pm, k, v)
     out["trace"] = world.trace
+    out["reload"] = reload
     out["ticks"] = world.tick
     out["deaths"] = [(t, p.name, p.pid, mid) for t, p, mid in world.deaths]
     out["world"] = world
@@ -313,7 +323,8 @@ def oracle_c17(out: Dict[str, Any], workers: int, max_fails: Optional[int] = Non
         # "unless it has exhausted its failure budget": there is no budget to exhaust when max_fails < 1
         v.append(Violation("gave-up-without-budget", f"start() returned -1 (stopped supervising) although max_fails={max_fails} means no failure budget"))
     if max_fails is not None and max_fails >= 1 and out.get("returned") and out.get("ret") == -1:
-        told = {e[3] for e in tr if e[1] == "is_alive" and e[4] is False}
+        died_pids = {e[3] for e in tr if e[1] == "died"}
+        told = {e[3] for e in tr if e[1] == "is_alive" and e[4] is False and e[3] in died_pids}
         if len(told) < max_fails:
             v.append(Violation("gave-up-before-budget-exhausted", f"start() returned -1 after only {len(told)} worker deaths were seen, max_fails={max_fails}: the dead worker is not replaced although the budget is not exhausted"))
     slots = {f"worker-{i}" for i in range(workers)}
@@ -372,6 +383,7 @@ def oracle_c18(out: Dict[str, Any], workers: int, max_fails: int, history: List[
     tr = out["trace"]
     # K per tick: distinct processes reported dead to the manager (is_alive() -> False)
     told: set = set()
+    died_pids = {e[3] for e in tr if e[1] == "died"}
     K_at_end_of_tick: Dict[int, int] = {}
     ret = None
     ret_tick = None
@@ -380,8 +392,8 @@ def oracle_c18(out: Dict[str, Any], workers: int, max_fails: int, history: List[
         if e[1] == "tick":
             K_at_end_of_tick[e[0] - 1] = len(told)
             cur_tick = e[0]
-        elif e[1] == "is_alive" and e[4] is False:
-            told.add(e[3])
+        elif e[1] == "is_alive" and e[4] is False and e[3] in died_pids:
+            told.add(e[3])  # (a process the manager itself stopped is not an unexpected exit)
         elif e[1] == "return":
             ret = e[2]
             ret_tick = e[0]
@@ -495,6 +507,10 @@ def oracle_c18(out: Dict[str, Any], workers: int, max_fails: int, history: List[
                         v.append(Violation("signalled-twice", f"pid {pid} signalled {n} times"))
                 elif n != 1:
                     v.append(Violation("live-worker-not-signalled-once", f"live worker pid {pid} signalled {n} times on shutdown"))
+            # terminate() is a signal too (SIGTERM): once shutdown handling began a worker gets its SIGINT and nothing else
+            extra = [e for e in tr[idx:] if e[1] == "terminate" and e[3] in cur_pids]
+            if kills and extra:
+                v.append(Violation("signalled-twice", f"shutdown: worker {extra[0][2]} (pid {extra[0][3]}) was sent SIGINT and then terminated (a second signal)"))
             after = [e for e in tr[idx:] if e[1] == "start"]
             if after:
                 v.append(Violation("start-after-shutdown", f"{len(after)} processes started after shutdown handling began"))
@@ -643,7 +659,7 @@ class ProcCheck(Check):
                         mids.append([rng.randint(1, 6 + 8 * w), kind, arg])
                     hist.append(base + (mids,))
                 lag = rng.random() < 0.5
-                out = run_history(w, mf, hist, lag, rng.choice([0.0, 0.0, 8.0]))
+                out = run_history(w, mf, hist, lag, rng.choice([0.0, 0.0, 8.0]), reload=rng.random() < 0.25)
                 self._account(cr, out, w, mf, hist)
                 cr.counters["midtick_histories"] += 1
                 for site, kind in out["world"].mid_sites:
@@ -666,7 +682,7 @@ class ProcCheck(Check):
                     else:
                         hist.append(rng.choice(alpha))
                 lag = rng.random() < 0.5
-                out = run_history(w, mf, hist, lag, rng.choice([0.0, 0.0, 3.0, 8.0, 30.0]))
+                out = run_history(w, mf, hist, lag, rng.choice([0.0, 0.0, 3.0, 8.0, 30.0]), reload=rng.random() < 0.25)
                 self._account(cr, out, w, mf, hist)
                 cr.counters["random_histories"] += 1
                 cr.counters["lagged_queue_histories"] += 1 if lag else 0
@@ -683,9 +699,12 @@ class ProcCheck(Check):
             cr.events[e[1]] += 1
         if out["returned"]:
             cr.counters["returned_" + str(out["ret"])] += 1
+        if out.get("reload"):
+            cr.counters["histories_in_reload_mode"] += 1
         vs = self.judge(out, w, mf, hist)
         for x in vs:
-            x.detail = {"workers": w, "max_fails": mf, "queue_lag": bool(out["world"].lag), "history": [list(map(_j, h)) for h in played],
+            x.detail = {"workers": w, "max_fails": mf, "queue_lag": bool(out["world"].lag), "slow_exit": out["world"].slow_exit,
+                        "reload_mode": bool(out.get("reload")), "history": [list(map(_j, h)) for h in played],
                         "trace": [list(map(_j, e)) for e in out["trace"][:200]]}
         cr.violations += vs
         if cr.trace is None and any(h[0] for h in played) and len(out["trace"]) < 60:
